@@ -808,6 +808,7 @@ type journalState struct {
 	loop     int
 	loopN    int64
 	skipped  int
+	restart  bool // the child asked to be replaced by a fresh process (after a huge surviving allocation)
 }
 
 func parseJournal(path string) journalState {
@@ -845,6 +846,8 @@ func parseJournal(path string) journalState {
 			fmt.Sscanf(ln[2:], "%d %d", &st.loop, &st.loopN)
 		case 'D':
 			st.done = true
+		case 'X':
+			st.restart = true
 		}
 	}
 	return st
@@ -916,7 +919,7 @@ func (r *Runner) retryAlone(c *Case, step, firstOut string, pressure bool) bool 
 	st := parseJournal(jp)
 	os.Remove(jp)
 	r.deaths++
-	if rl, ok := st.results[0]; ok && st.done {
+	if rl, ok := st.results[0]; ok && (st.done || st.restart) {
 		n := 0
 		for _, s := range rl.Steps {
 			switch s.Kind {
